@@ -3,7 +3,7 @@
 // It copies the *current* non-test sources of the target packages of the
 // repository module into a scratch directory, rewritten so that
 //
-//	x.Lock()            -> __simrt.Lock(x.Lock, x.TryLock, site)      (also RLock/TryRLock)
+//	x.Lock()            -> __simrt.Lock(&x, x.Lock, x.TryLock, site)  (RLock -> __simrt.RLock(&x, x.RLock, x.TryRLock, site))
 //	x.Unlock()          -> __simrt.Unlock(x.Unlock, site)             (also RUnlock, also in defer)
 //	x.TryLock()         -> __simrt.Try(x.TryLock, site)
 //	atomic.F(p, b)      -> atomic.F(__simrt.YA(site, p), b)            (functions of sync/atomic)
@@ -561,12 +561,19 @@ func (fc *fileCtx) call(c *ast.CallExpr, parent ast.Node, handled map[ast.Expr]b
 			fc.errf(c.Pos(), "receiver of %s() spans lines: cannot be instrumented", name)
 			return
 		}
+		// identity of the mutex for the scheduler's pending-writer bookkeeping: its address
+		key := "&" + x
+		if tv, ok := fc.info.Types[sel.X]; ok {
+			if _, isPtr := tv.Type.Underlying().(*types.Pointer); isPtr {
+				key = x
+			}
+		}
 		switch name {
 		case "Lock":
-			fc.replace(c, fmt.Sprintf("%s.Lock(%s.Lock, %s.TryLock, %q)", simrtName, x, x, fc.site(c.Pos(), "L")))
+			fc.replace(c, fmt.Sprintf("%s.Lock(%s, %s.Lock, %s.TryLock, %q)", simrtName, key, x, x, fc.site(c.Pos(), "L")))
 			fc.rep.Locks++
 		case "RLock":
-			fc.replace(c, fmt.Sprintf("%s.Lock(%s.RLock, %s.TryRLock, %q)", simrtName, x, x, fc.site(c.Pos(), "RL")))
+			fc.replace(c, fmt.Sprintf("%s.RLock(%s, %s.RLock, %s.TryRLock, %q)", simrtName, key, x, x, fc.site(c.Pos(), "RL")))
 			fc.rep.Locks++
 		case "Unlock", "RUnlock":
 			fc.replace(c, fmt.Sprintf("%s.Unlock(%s.%s, %q)", simrtName, x, name, fc.site(c.Pos(), map[string]string{"Unlock": "U", "RUnlock": "RU"}[name])))
